@@ -39,6 +39,11 @@ NestedScripts(amt) ==
   ELSE UNION { { <<[a |-> "loan", x |-> n, sub |-> <<[a |-> "repay", x |-> rn]>>], [a |-> "repay", x |-> ro]>> :
                    rn \in {Payback(st, n), Payback(st, n) - 1},
                    ro \in { x \in {Payback(st, amt), Payback(st, amt) - 1, amt} : x >= 1 } } : n \in LoanAmt }
+       \* sibling loans: two loans one after the other in the same call-back, each repaid exactly; the outer repayment
+       \* exact or one unit short
+       \cup { <<[a |-> "loan", x |-> n, sub |-> <<[a |-> "repay", x |-> Payback(st, n)]>>],
+                 [a |-> "loan", x |-> m, sub |-> <<[a |-> "repay", x |-> Payback(st, m)]>>], [a |-> "repay", x |-> ro]>> :
+                 n \in LoanAmt, m \in LoanAmt, ro \in { x \in {Payback(st, amt), Payback(st, amt) - 1} : x >= 1 } }
        \* a deposit made after the inner loan has completed is still inside the outer loan
        \cup { <<[a |-> "loan", x |-> n, sub |-> <<[a |-> "repay", x |-> Payback(st, n)]>>], [a |-> "deposit", x |-> d]>> :
                  n \in LoanAmt, d \in {3, Payback(st, amt)} }
